@@ -249,6 +249,13 @@ pub fn execute(id: usize, tree: &Tree, run: &Run) -> Outcome {
         use std::os::unix::process::CommandExt;
         cmd.uid(u).gid(u);
     }
+    if run.close_stdout {
+        // a pipe whose read end is closed BEFORE the program starts: every write to stdout fails with a broken pipe, from the
+        // first one on (closing the read end after the spawn races with the program's first write)
+        let (r, w) = std::io::pipe().expect("pipe");
+        drop(r);
+        cmd.stdout(w);
+    }
     let mut child = cmd.spawn().expect("spawn stylua");
     {
         let mut si = child.stdin.take().unwrap();
@@ -261,13 +268,7 @@ pub fn execute(id: usize, tree: &Tree, run: &Run) -> Outcome {
         }
     }
     // the run must end: a binary that does not terminate is an observation (exit code 2000), not a reason to wait for ever
-    // (with close_stdout the read end is closed here, synchronously, long before the program can have produced a result)
-    let so = if run.close_stdout {
-        drop(child.stdout.take());
-        None
-    } else {
-        child.stdout.take()
-    };
+    let so = child.stdout.take();
     let mut se = child.stderr.take().unwrap();
     let h1 = std::thread::spawn(move || {
         let mut v = vec![];
